@@ -104,7 +104,7 @@ def r7_cfg_defmt(text, log):
                     log.append(("R7", "attribute removed: " + attr))
                     k = c
                 elif attr.startswith("# [ derive"):
-                    keep = [d for d in ("Clone", "Copy", "Default") if re.search(r"\b%s\b" % d, attr)]
+                    keep = [d for d in ("Debug", "Clone", "Copy", "Default") if re.search(r"\b%s\b" % d, attr)]
                     rep = "#[derive(%s)]" % ", ".join(keep) if keep else ""
                     edits.append((t.start, toks[c].end, rep))
                     log.append(("R7", f"{attr} -> {rep or 'removed'}"))
@@ -313,6 +313,8 @@ class FnShape:
     def stmt_end(self, k):
         """offset just after the ';' (or block '}' ) that ends the statement containing token k."""
         toks = self.toks
+        if toks[k].kind == "punct" and toks[k].text == ";":
+            return toks[k].end
         m = k + 1
         while m < len(toks):
             tt = toks[m]
@@ -463,8 +465,11 @@ def weave_fn(text, directives, canary=False):
             else:
                 add(toks[bs].start, spec + "{ ", d)
                 add(toks[_prev_code(toks, be)].end, " }", d, order=-1)
+        elif d.kind == "vis":
+            # visibility only (the item is wrapped in a module of its own by the template)
+            add(toks[sh.fn_k].start, d.arg.strip() + " ", d, order=5)
         elif d.kind == "attr":
-            add(toks[sh.fn_k].start if not _has_vis(toks, sh.fn_k) else toks[_vis_start(toks, sh.fn_k)].start, d.arg.strip() + "\n", d)
+            add(toks[sh.fn_k].start if not _has_vis(toks, sh.fn_k) else toks[_vis_start(toks, sh.fn_k)].start, d.arg.strip() + "\n", d, order=-5)
         else:
             raise Unsupported(f"unknown directive #{d.kind}")
     if canary:
